@@ -72,6 +72,8 @@ def eval_method(case):
     t, per = v.base_str, per_char(v)
     cls = type(v).__name__
     m, w, f, ext, ip = case['m'], case['w'], case['f'], case['ext'], case['ip']
+    if case.get('wrel') is not None:
+        w = len(t) + case['wrel']
     align = {'ljust': '<', 'rjust': '>', 'center': '^', 'zfill': '>'}[m]
     if m == 'zfill':
         f = '0'
@@ -316,8 +318,8 @@ def strat_sem(draw):
 
 
 def strat_method():
-    return st.fixed_dictionaries({'p': gen.prog(CFG), 'm': st.sampled_from(['ljust', 'rjust', 'center', 'center', 'zfill']),
-                                  'w': st.integers(0, 15), 'f': st.sampled_from(FILLS), 'ext': st.booleans(), 'ip': st.booleans()})
+    return st.fixed_dictionaries({'p': gen.weighted((9, gen.prog(CFG)), (3, gen.progs(CFG)), (1, gen.prog_huge(CFG))), 'wrel': gen.weighted((2, st.none()), (1, st.integers(-2, 14))), 'm': st.sampled_from(['ljust', 'rjust', 'center', 'center', 'zfill']),
+                                  'w': gen.weighted((8, st.integers(0, 15)), (1, st.integers(16, 400))), 'f': st.sampled_from(FILLS), 'ext': st.booleans(), 'ip': st.booleans()})
 
 
 def self_test():
